@@ -426,6 +426,7 @@ func (r *nodeRig) propertyMonitors(id int, label string, i int, s nStep, o nObs,
 			}
 			if !closed && !sendFailed {
 				fail("C08", "rejecting-update-did-not-close-transport", "a rejecting validation update did not close the transport channel")
+				fail("C04", "rejecting-update-did-not-close-transport", "an existing channel was re-validated and rejected, yet its transport channel was not closed")
 			}
 		}
 	}
@@ -749,6 +750,23 @@ func (r *nodeRig) propertyMonitors(id int, label string, i int, s nStep, o nObs,
 			}
 			if sentOK && o.Ret == 0 && !(len(log1) == len(log0)+1 && log1[len(log1)-1] == v) {
 				fail("C19", "sent-but-not-recorded-once", "a sent voucher (result) was not recorded exactly once at the end of the log")
+			}
+		}
+	}
+	// a voucher result that arrives with a response to a validation attempt (new, restart, voucher result,
+	// complete) is recorded once at the end of the result log, whether the response accepts or rejects
+	if (s.Kind == "mresponse" || s.Kind == "tresponse") && !s.Msg.IsReq && s.Msg.VNode != 0 && s.Msg.VType != "" &&
+		(s.Msg.Type == mtNew || s.Msg.Type == mtRestart || s.Msg.Type == mtVoucherResult || s.Msg.Type == mtComplete) {
+		k := s.K
+		if s.Kind == "mresponse" {
+			k = chidTok{self, s.From, s.Msg.Tid}
+		}
+		if b, ok := before[k]; ok && b.SelfInit && !isTerminal(b.Status) && !cleanupStatus(b.Status) && (s.Kind == "tresponse" || s.From == b.Other) {
+			if a, ok := after[k]; ok {
+				v := coqVoucher(datatransfer.TypeIdentifier(s.Msg.VType), s.Msg.VNode)
+				if !(len(a.Results) == len(b.Results)+1 && a.Results[len(a.Results)-1] == v) {
+					fail("C19", "received-result-not-recorded-once", "a voucher result received with the counterparty's response was not recorded exactly once at the end of the result log", a.Results, append(append([]string(nil), b.Results...), v))
+				}
 			}
 		}
 	}
